@@ -342,13 +342,33 @@ pub fn gen_refs(root: &Path, out: &mut Output) {
         let mut section = String::new();
         let mut deps: Vec<String> = vec![];
         let mut features: BTreeMap<String, String> = BTreeMap::new();
+        // logical lines: a value that opens a bracket continues until the brackets balance
+        let mut logical: Vec<String> = vec![];
+        let mut pending = String::new();
         for l in t.lines() {
+            let l = l.trim();
+            if l.is_empty() || l.starts_with('#') {
+                continue;
+            }
+            if pending.is_empty() {
+                pending = l.to_string();
+            } else {
+                pending.push(' ');
+                pending.push_str(l);
+            }
+            let opens = pending.matches('[').count() + pending.matches('{').count();
+            let closes = pending.matches(']').count() + pending.matches('}').count();
+            if opens <= closes {
+                logical.push(std::mem::take(&mut pending));
+            }
+        }
+        if !pending.is_empty() {
+            logical.push(pending);
+        }
+        for l in logical.iter() {
             let l = l.trim();
             if l.starts_with('[') {
                 section = l.to_string();
-                continue;
-            }
-            if l.is_empty() || l.starts_with('#') {
                 continue;
             }
             if section == "[dependencies]" || (section.starts_with("[target.") && section.ends_with(".dependencies]")) {
@@ -365,6 +385,26 @@ pub fn gen_refs(root: &Path, out: &mut Output) {
             "def cargoFeatures : List (String × String) := [{}]\n\n",
             features.iter().map(|(k, v)| format!("({}, {})", lstr(k), lstr(v))).collect::<Vec<_>>().join(", ")
         ));
+        // the feature graph: what each feature of the manifest switches on (the quoted names inside its array)
+        let graph: Vec<String> = features
+            .iter()
+            .map(|(k, v)| {
+                let mut names: Vec<String> = vec![];
+                let mut rest: &str = v.as_str();
+                while let Some(i) = rest.find('"') {
+                    let after = &rest[i + 1..];
+                    match after.find('"') {
+                        Some(j) => {
+                            names.push(after[..j].to_string());
+                            rest = &after[j + 1..];
+                        },
+                        None => break,
+                    }
+                }
+                format!("({}, [{}])", lstr(k), names.iter().map(|n| lstr(n)).collect::<Vec<_>>().join(", "))
+            })
+            .collect();
+        text.push_str(&format!("def cargoFeatureGraph : List (String × List String) := [{}]\n\n", graph.join(", ")));
     }
     // intrinsic -> required features
     let snap = Path::new(env!("CARGO_MANIFEST_DIR")).join("stdarch_features.tsv");
